@@ -23,6 +23,8 @@ func init() {
 			c.min("R-CLAMP", 2)
 			c.min("R-PLAN", 4)
 			c.min("R-MASKSHIFT", 3)
+			c.ruleDirPrune()
+			c.min("R-DIRPRUNE", 4)
 		})
 	register("C32", "dominance rules on full-sync validation and import ordering (R-STATEDHASH, R-CHAIN, R-PARENTKNOWN)",
 		"Decides: a block response is kept only after every block's stated hash was compared with the hash of its header and the headers were checked to be a parent-linked chain (both checks dominate the append to the valid set); blocks are queued for import only on the edge where the parent of the FIRST block of exactly the slice being queued is known to the block state, and importBlock is only invoked on elements of that queue, in order; fragments whose parent is unknown are parked, not imported. "+
@@ -423,7 +425,8 @@ func (c *Ctx) ruleNetDecoders() {
 	for _, e := range entries {
 		visit(e)
 	}
-	n := 0
+	n, nFixed := 0, 0
+	c.doc("R-FIXEDWIDTH", "every binary.LittleEndian/BigEndian.UintN(b) reachable from a network decoder is dominated by facts implying len(b) >= N/8 (len == k, len >= k, the false edge of len < k or len != k, or a constant-length slice/array), so a short field cannot panic the decoder")
 	for _, f := range order {
 		ord := 0
 		eachInstr(f, func(b *ssa.BasicBlock, _ int, in ssa.Instruction) {
@@ -437,6 +440,22 @@ func (c *Ctx) ruleNetDecoders() {
 					need = at.Len()
 				}
 				what = "conversion to " + x.Type().(*types.Pointer).Elem().String()
+			case *ssa.Call:
+				nm := calleeName(&x.Call)
+				if !strings.HasPrefix(nm, "(encoding/binary.littleEndian).Uint") && !strings.HasPrefix(nm, "(encoding/binary.bigEndian).Uint") {
+					return
+				}
+				bits := int64(0)
+				fmt.Sscanf(nm[strings.Index(nm, ").Uint")+6:], "%d", &bits)
+				if bits == 0 || len(x.Call.Args) < 2 {
+					return
+				}
+				nFixed++
+				src, need = x.Call.Args[1], bits/8
+				lb := lowerBoundOfLen(b, src)
+				c.ob("R-FIXEDWIDTH", fmt.Sprintf("%s:%s#%d", relName(f.String()), nm[strings.Index(nm, ").")+2:], nFixed), in.Pos(), lb >= need,
+					fmt.Sprintf("%s reads a %d-byte integer from a slice whose length is only known to be >= %d on this path: a shorter field from a peer panics the decoder (index out of range)", shortFn(f), need, lb))
+				return
 			default:
 				return
 			}
@@ -591,4 +610,62 @@ func (c *Ctx) ruleKeystore() {
 		}
 		return p == nil || relName(p.Pkg.Path()) != dir
 	})
+}
+
+// lowerBoundOfLen: the largest k such that the branch facts holding at b (or the construction of v) imply len(v) >= k.
+func lowerBoundOfLen(b *ssa.BasicBlock, v ssa.Value) int64 {
+	lb := int64(0)
+	switch x := v.(type) {
+	case *ssa.Slice:
+		if pt, ok := x.X.Type().Underlying().(*types.Pointer); ok {
+			if at, ok := pt.Elem().Underlying().(*types.Array); ok && x.Low == nil && x.High == nil {
+				lb = at.Len()
+			}
+		}
+		if x.High != nil {
+			if hi, ok := constInt(x.High); ok {
+				lo := int64(0)
+				if x.Low != nil {
+					lo, _ = constInt(x.Low)
+				}
+				// s[lo:hi] panics itself when s is too short, so reaching the use implies the length
+				if hi-lo > lb {
+					lb = hi - lo
+				}
+			}
+		}
+	case *ssa.MakeSlice:
+		if k, ok := constInt(x.Len); ok {
+			lb = k
+		}
+	}
+	for _, fc := range factsAt(b) {
+		bo, ok := fc.cond.(*ssa.BinOp)
+		if !ok || !isCmp(bo.Op) {
+			continue
+		}
+		x, y, op := bo.X, bo.Y, bo.Op
+		if _, isLen := lenOf(y); isLen {
+			x, y, op = y, x, flipOp(op)
+		}
+		l, isLen := lenOf(x)
+		k, isC := constInt(y)
+		if !isLen || !isC || !sameFieldLoad(l, v) {
+			continue
+		}
+		if !fc.truth {
+			op = negOp(op)
+		}
+		switch op {
+		case token.EQL, token.GEQ:
+			if k > lb {
+				lb = k
+			}
+		case token.GTR:
+			if k+1 > lb {
+				lb = k + 1
+			}
+		}
+	}
+	return lb
 }
